@@ -534,6 +534,27 @@ def _install() -> None:
     _reg("to_sympy", lambda ch: g_unary(ch, shape=ch.choice([(), (), (2,)]), kind=ch.choice(["int", "float"]), max_terms=4), _to_sympy, "polyfn", weight=1)
     _reg("pickle", g_unary, lambda a, k: pickle.loads(pickle.dumps(a[0], protocol=k.get("protocol", 2))), "polyfn")
 
+    def g_call_arrays(ch: core.Chooser) -> dict:
+        # evaluation points handed over as numpy arrays (0-d or 1-d) the caller keeps
+        names = gen_names(ch.sub("n"), 2, 3)
+        lit = gen_poly(ch.sub("a"), names=names, shape=(), kind="int", max_terms=4, max_exp=2)
+        if lit["exponents"]:
+            lit["exponents"][0] = [1] * len(names)  # a product of all indeterminates, each to the first power
+        shape = () if ch.chance(0.6) else (2,)
+        dt = ch.choice(["float64", "float64", "int64"])
+        pts = [A(numpy.array([ch.choice([2, 3, 5])] * int(numpy.prod(shape, dtype=int)), dtype=dt).reshape(shape), dt) for _ in names]
+        return {"args": [P(lit)] + pts, "kwargs": {}}
+
+    _reg("call.arrays", g_call_arrays, lambda a, k: a[0](*a[1:]), "polyfn", weight=1)
+
+    def g_roots_array(ch: core.Chooser) -> dict:
+        m = ch.between(1, 3)
+        shape = ch.choice([(m,), (m, 1), (1, m), (m, m)])
+        dt = ch.choice(["float64", "int64"])
+        return {"args": [A(numpy.array([ch.choice([1, 2, -1, 0, 3]) for _ in range(int(numpy.prod(shape)))], dtype=dt).reshape(shape), dt)], "kwargs": {}}
+
+    _reg("roots.array", g_roots_array, lambda a, k: n.polynomial_from_roots(a[0]), "construct", weight=1)
+
     def g_copyto(ch: core.Chooser) -> dict:
         # destination (declared output, exempt from the snapshot) and a source over the same indeterminates that may hold
         # non-finite numbers; the source is an argument like any other
